@@ -3,7 +3,7 @@
 use crate::codec::{Frame, read_frame, write_all_retry};
 use crate::families::c03_common::{Counters, build_router, check_responses, draw_len, gen_requests, model, sanitize};
 use crate::families::client_blocking::draw_net;
-use crate::framework::{Case, Family, range};
+use crate::framework::{Case, Family, pick, range};
 use repe::Server;
 use serde_json::json;
 use simkernel::net::{self, TcpListener, TcpStream};
@@ -81,8 +81,10 @@ fn c03_server(case: &Case) {
     let router = build_router(&counters, n_mw, simkernel::choose(2) == 0);
     let listener = TcpListener::bind("127.0.0.1:0").unwrap();
     let addr = listener.local_addr().unwrap();
+    // configured-but-generous timeouts: the timeout plumbing is in the path, nothing may fire
+    let (rt, wt) = (pick(&[None, Some(Duration::from_secs(3_600))]), pick(&[None, Some(Duration::from_secs(3_600))]));
     let server = thread::spawn(move || {
-        let _ = Server::new(router).serve(listener);
+        let _ = Server::new(router).read_timeout(rt).write_timeout(wt).serve(listener);
     });
     let mut reqs = gen_requests(draw_len());
     sanitize(&mut reqs);
